@@ -80,10 +80,11 @@ def cases(draw):
         if fate[0] == 'signal' and fate[1] in ('HUP', 'INT'):
             fate = ['signal', 'KILL']
         hist = [draw(st.sampled_from(['isalive', 'wait', 'close', 'close', 'terminate'])) for _ in range(n)]
-    return {'transport': transport, 'fate': fate, 'how': how, 'history': hist}
+    # the child prints a line before it meets its fate: its last output and the hang-up are then picked up together
+    return {'transport': transport, 'fate': fate, 'how': how, 'history': hist, 'talk': draw(st.booleans())}
 
 
-def command(fate, how):
+def command(fate, how, talk=False):
     if how == 'close-refused':
         tail = "trap 'exit %d' TERM; " % fate[1] if fate[0] == 'exit' else ''
         return ['/bin/sh', '-c', "trap '' HUP INT; %secho READY; while :; do sleep 0.02; done" % tail]
@@ -94,9 +95,10 @@ def command(fate, how):
         return ['/bin/sh', '-c', "trap '' HUP; sleep 2 & trap - HUP; %s" % tail]
     if how != 'self':
         return ['/bin/sh', '-c', 'exec sleep 300']
+    pre = 'echo bye; ' if talk else ''
     if fate[0] == 'exit':
-        return ['/bin/sh', '-c', 'exit %d' % fate[1]]
-    return ['/bin/sh', '-c', 'ulimit -c 0; kill -%s $$; sleep 5' % fate[1]]
+        return ['/bin/sh', '-c', pre + 'exit %d' % fate[1]]
+    return ['/bin/sh', '-c', pre + 'ulimit -c 0; kill -%s $$; sleep 5' % fate[1]]
 
 
 def truth(fate):
@@ -148,7 +150,7 @@ def judge(child, fate, where, with_status=True):
 
 def check_pty(case, col=None):
     fate, how = case['fate'], case['how']
-    cmd = command(fate, how)
+    cmd = command(fate, how, case.get('talk', False))
     child = pexpect.spawn(cmd[0], cmd[1:], timeout=20)
     child.delayafterterminate = 0.02
     child.ptyproc.delayafterterminate = 0.02
